@@ -1,5 +1,5 @@
 """C01 End-to-end transparency of the tunnel: wiring skeleton (entry points, UDP reply routing, reserved id)."""
-from an import (Tracer, guard_at, strip, strip_casts, walk, fmt, callee, const_eval, Inter)
+from an import (Tracer, guard_at, strip, strip_casts, walk, fmt, callee, const_eval, Inter, N)
 from muxcommon import derives_from_call, credit_leak_after_take
 from mir import loc_str
 import rules_c03, rules_c18
@@ -188,7 +188,8 @@ def check(facts, rep, tier, cfg):
                 tr = Tracer(facts, b)
                 rep.analysed(b)
                 where = "%s (%s)" % (loc_str(b.loc), b.path)
-                ins = [(bi, t) for bi, t in b.calls() if callee(t) and callee(t)["name"] == "insert" and "HashMap" in callee(t)["def"]]
+                ins = [(bi, t) for bi, t in b.calls() if callee(t) and callee(t)["name"] == "insert" and
+                       ("HashMap" in callee(t)["def"] or "VacantEntry" in callee(t)["def"])]
                 ent = [t for _, t in b.calls() if callee(t) and callee(t)["name"] == "new" and "ClientIdMapEntry" in callee(t)["path"]]
                 ok = len(ins) == 2 and len(ent) == 1
                 if ok:
@@ -197,8 +198,14 @@ def check(facts, rep, tier, cfg):
                         if "ClientIdMapEntry" in callee(t)["path"]:
                             ids.append(strip(tr.operand(t["args"][1])))
                         else:
-                            ids.append(strip(tr.operand(t["args"][2])))
-                            k = strip(tr.operand(t["args"][1]))
+                            if "VacantEntry" in callee(t)["def"]:
+                                # map.entry(key) ... vacant.insert(id): the key is the argument of the entry() call the vacant entry comes from
+                                ids.append(strip(tr.operand(t["args"][1])))
+                                ek = [x for x in walk(tr.operand(t["args"][0])) if x.kind == "call" and x[6] == "entry" and len(x[3]) > 1]
+                                k = strip(ek[0][3][1]) if ek else N("unknown", "entry")
+                            else:
+                                ids.append(strip(tr.operand(t["args"][2])))
+                                k = strip(tr.operand(t["args"][1]))
                             kk = [names_in(b, v) for _, v in k[3]] if k.kind == "agg" else []
                             if not (len(kk) == 2 and kk[0] == {"addr"} and any(x.kind == "call" and x[6] == "local_addr" for x in walk(k[3][1][1]))):
                                 ok = False
